@@ -261,6 +261,11 @@ func Generate(seed uint64) *Corpus {
 			add(s)
 		}
 	}
+	generated := append([]string(nil), names...)
+	for _, s := range g.lateShapes() {
+		add(s)
+	}
+	names = generated // (nothing generated or derived below nests a late shape)
 	// invalid definitions, containers of them, bystanders
 	for _, s := range g.invalids(names) {
 		add(s)
@@ -478,6 +483,119 @@ func (g *gen) aliasAndFixed() []*StructDef {
 		}
 		mk(fmt.Sprintf("Wide%d", n), n == 256, fs...)
 	}
+	mk("FixedU", true, f(1, Default, I32), f(2, Required, I64), f(3, Default, Bool), f(4, Default, Double))
+	mk("FixedN", false, f(1, Default, I16), f(2, Required, I8), f(7, Default, I64))
+	mk("FixedOneU", true, f(3, Default, I64))
+	// by-value container elements whose own fields are all required but which still have parts a message may leave
+	// out (a required by-value struct with optional fields; the unknown-fields holder): what the previous entry or
+	// the previous message left in a recycled slot shows exactly there
+	mk("OptLeaf", false, f(1, Optional, I32), f(2, Optional, String), f(3, Default, I64), f(4, Optional, Binary))
+	mk("AllReqV", false, f(1, Required, I32), &Field{ID: 2, Name: "F2", T: &T{K: Struct, S: "OptLeaf"}, Req: Required}, f(3, Required, String))
+	mk("AllReqU", true, f(1, Required, I32), f(2, Required, String))
+	mk("HoldAllReq", false,
+		&Field{ID: 1, Name: "F1", T: &T{K: Map, Key: &T{K: I32}, Elem: &T{K: Struct, S: "AllReqV"}}},
+		&Field{ID: 2, Name: "F2", T: &T{K: Map, Key: &T{K: String}, Elem: &T{K: Struct, S: "AllReqU"}}},
+		&Field{ID: 3, Name: "F3", T: &T{K: List, Elem: &T{K: Struct, S: "AllReqV"}}, Req: Optional},
+		&Field{ID: 4, Name: "F4", T: &T{K: Struct, S: "AllReqU"}},
+		&Field{ID: 5, Name: "F5", T: &T{K: Map, Key: &T{K: I64}, Elem: &T{K: Struct, S: "AllReqV", Ptr: true}}, Req: Optional},
+		&Field{ID: 6, Name: "F6", T: &T{K: Map, Key: &T{K: I8}, Elem: &T{K: Map, Key: &T{K: I32}, Elem: &T{K: Struct, S: "AllReqU"}}}})
+	// definitions whose own initialiser panics: the panic reaches the caller, and nothing frugal holds at that moment
+	// (registration lock, half-built descriptors) may stay behind
+	for i := 0; i < 3; i++ {
+		s := mk(fmt.Sprintf("PanicInit%d", i), i == 1, f(1, Default, I32), f(2, Optional, String), f(3, Required, I64))
+		s.PanicInit = true
+	}
+	// initialisers that depend on something loaded after the start-up warm-up (they panic only while the harness
+	// says so, which it does around legacy warm-up calls and never around codec calls)
+	for i := 0; i < 2; i++ {
+		s := mk(fmt.Sprintf("LateInit%d", i), i == 1, f(1, Default, I32), f(2, Optional, I64), f(3, Required, String))
+		s.InitDefault, s.LateInit = true, true
+		s.Fields[1].OptPtr = false
+		s.Fields[1].Def = NewW(WI64)
+		s.Fields[1].Def.I = 7
+	}
+	mk("HoldLateInit", false,
+		&Field{ID: 1, Name: "F1", T: &T{K: Struct, S: "LateInit0", Ptr: true}},
+		&Field{ID: 2, Name: "F2", T: &T{K: List, Elem: &T{K: Struct, S: "LateInit1"}}},
+		&Field{ID: 3, Name: "F3", T: &T{K: I64}})
+	mk("HoldPanicInit", false,
+		&Field{ID: 1, Name: "F1", T: &T{K: Struct, S: "FixedN", Ptr: true}},
+		&Field{ID: 2, Name: "F2", T: &T{K: List, Elem: &T{K: Struct, S: "PanicInit2", Ptr: true}}},
+		&Field{ID: 3, Name: "F3", T: &T{K: I64}}).HoldsPanic = true
+	// nocopy views and the unknown-fields holder in the same definition (both refer to the message: one by design,
+	// the other must not), at the top level and nested
+	{
+		nc := func(id uint16, req Req, k Kind) *Field {
+			x := f(id, req, k)
+			x.NoCopy = true
+			x.OptPtr = false
+			return x
+		}
+		mk("NcU", true, nc(1, Default, String), f(2, Default, I32), nc(3, Optional, Binary), f(4, Optional, I64), f(9, Default, String))
+		mk("HoldNcU", true,
+			&Field{ID: 1, Name: "F1", T: &T{K: Struct, S: "NcU", Ptr: true}},
+			&Field{ID: 2, Name: "F2", T: &T{K: List, Elem: &T{K: Struct, S: "NcU"}}, Req: Optional},
+			&Field{ID: 3, Name: "F3", T: &T{K: Map, Key: &T{K: String}, Elem: &T{K: Struct, S: "NcU", Ptr: true}}},
+			&Field{ID: 4, Name: "F4", T: &T{K: Struct, S: "NcU"}},
+			nc(5, Optional, String))
+	}
+	// a map type that occurs inside its own value type, by value and by pointer: the decode of an inner map runs
+	// while the outer one is between decoding an entry and storing it
+	for _, ptr := range []bool{false, true} {
+		n := "RecMapV"
+		if ptr {
+			n = "RecMapP"
+		}
+		mk(n, false, f(1, Default, String),
+			&Field{ID: 2, Name: "F2", T: &T{K: List, Elem: &T{K: I64}}},
+			&Field{ID: 3, Name: "F3", T: &T{K: Map, Key: &T{K: String}, Elem: &T{K: Struct, S: n, Ptr: ptr}}},
+			&Field{ID: 4, Name: "F4", T: &T{K: Map, Key: &T{K: I32}, Elem: &T{K: Struct, S: n, Ptr: ptr}}, Req: Optional})
+	}
+	// second, independent holders of the same inner definitions (which holder is used first must not matter)
+	for _, in := range []string{"FixedU", "FixedN", "EmptyU"} {
+		mk("Also"+in, false,
+			&Field{ID: 1, Name: "F1", T: &T{K: Struct, S: in}, Req: Required},
+			&Field{ID: 2, Name: "F2", T: &T{K: I32}},
+			&Field{ID: 3, Name: "F3", T: &T{K: Struct, S: in, Ptr: true}, Req: Optional})
+	}
+	for i, in := range []string{"FixedU", "FixedN", "FixedOneU", "Alias1", "Alias3", "EmptyN", "EmptyU"} {
+		mk(fmt.Sprintf("Hold%s", in), i%2 == 0,
+			&Field{ID: 1, Name: "F1", T: &T{K: Struct, S: in, Ptr: true}},
+			&Field{ID: 2, Name: "F2", T: &T{K: List, Elem: &T{K: Struct, S: in, Ptr: true}}},
+			&Field{ID: 3, Name: "F3", T: &T{K: List, Elem: &T{K: Struct, S: in}}, Req: Optional},
+			&Field{ID: 4, Name: "F4", T: &T{K: Map, Key: &T{K: I32}, Elem: &T{K: Struct, S: in, Ptr: true}}},
+			&Field{ID: 5, Name: "F5", T: &T{K: Map, Key: &T{K: String}, Elem: &T{K: Struct, S: in}}, Req: Optional},
+			&Field{ID: 6, Name: "F6", T: &T{K: Struct, S: in}},
+			&Field{ID: 7, Name: "F7", T: &T{K: Set, Elem: &T{K: Struct, S: in, Ptr: true}}, Req: Required},
+		)
+	}
+	return out
+}
+
+// lateShapes: hand-written definitions added after the detection matrix of the generated corpus had been established.
+// They are created after the generated definitions and with a random stream of their own, so that adding one never
+// changes which definitions the generator produces (a check must not lose a shape it relied on because an unrelated
+// shape was added in front of it), and generated definitions never nest them.
+func (g *gen) lateShapes() []*StructDef {
+	saved := g.r
+	g.r = NewRng(Mix(g.c.Seed, 0x1a7e5))
+	defer func() { g.r = saved }()
+	var out []*StructDef
+	mk := func(name string, unknown bool, fs ...*Field) *StructDef {
+		s := &StructDef{Name: name, Cluster: -1, Unknown: unknown, Fields: fs}
+		out = append(out, s)
+		return s
+	}
+	f := func(id uint16, req Req, k Kind) *Field {
+		x := &Field{ID: id, Name: fmt.Sprintf("F%d", id), Req: req, T: g.scalar(k)}
+		if k == I64 {
+			x.T.GoName = ""
+		}
+		if req == Optional && k != String && k != Binary {
+			x.OptPtr = id%2 == 1
+		}
+		return x
+	}
 	// twelve small clusters A{*B, *Leaf, list<*Leaf2>}, B{*A, string}: the inner definition B is complete (and could
 	// be published) long before the outer one has linked the fields that follow its back edge; each cluster can be
 	// used for the first time once per process, and a schedule world goes through several per run
@@ -536,41 +654,6 @@ func (g *gen) aliasAndFixed() []*StructDef {
 		}
 		mk(fmt.Sprintf("Chain%02d", i), i%7 == 0, fs...)
 	}
-	mk("FixedU", true, f(1, Default, I32), f(2, Required, I64), f(3, Default, Bool), f(4, Default, Double))
-	mk("FixedN", false, f(1, Default, I16), f(2, Required, I8), f(7, Default, I64))
-	mk("FixedOneU", true, f(3, Default, I64))
-	// by-value container elements whose own fields are all required but which still have parts a message may leave
-	// out (a required by-value struct with optional fields; the unknown-fields holder): what the previous entry or
-	// the previous message left in a recycled slot shows exactly there
-	mk("OptLeaf", false, f(1, Optional, I32), f(2, Optional, String), f(3, Default, I64), f(4, Optional, Binary))
-	mk("AllReqV", false, f(1, Required, I32), &Field{ID: 2, Name: "F2", T: &T{K: Struct, S: "OptLeaf"}, Req: Required}, f(3, Required, String))
-	mk("AllReqU", true, f(1, Required, I32), f(2, Required, String))
-	mk("HoldAllReq", false,
-		&Field{ID: 1, Name: "F1", T: &T{K: Map, Key: &T{K: I32}, Elem: &T{K: Struct, S: "AllReqV"}}},
-		&Field{ID: 2, Name: "F2", T: &T{K: Map, Key: &T{K: String}, Elem: &T{K: Struct, S: "AllReqU"}}},
-		&Field{ID: 3, Name: "F3", T: &T{K: List, Elem: &T{K: Struct, S: "AllReqV"}}, Req: Optional},
-		&Field{ID: 4, Name: "F4", T: &T{K: Struct, S: "AllReqU"}},
-		&Field{ID: 5, Name: "F5", T: &T{K: Map, Key: &T{K: I64}, Elem: &T{K: Struct, S: "AllReqV", Ptr: true}}, Req: Optional},
-		&Field{ID: 6, Name: "F6", T: &T{K: Map, Key: &T{K: I8}, Elem: &T{K: Map, Key: &T{K: I32}, Elem: &T{K: Struct, S: "AllReqU"}}}})
-	// definitions whose own initialiser panics: the panic reaches the caller, and nothing frugal holds at that moment
-	// (registration lock, half-built descriptors) may stay behind
-	for i := 0; i < 3; i++ {
-		s := mk(fmt.Sprintf("PanicInit%d", i), i == 1, f(1, Default, I32), f(2, Optional, String), f(3, Required, I64))
-		s.PanicInit = true
-	}
-	// initialisers that depend on something loaded after the start-up warm-up (they panic only while the harness
-	// says so, which it does around legacy warm-up calls and never around codec calls)
-	for i := 0; i < 2; i++ {
-		s := mk(fmt.Sprintf("LateInit%d", i), i == 1, f(1, Default, I32), f(2, Optional, I64), f(3, Required, String))
-		s.InitDefault, s.LateInit = true, true
-		s.Fields[1].OptPtr = false
-		s.Fields[1].Def = NewW(WI64)
-		s.Fields[1].Def.I = 7
-	}
-	mk("HoldLateInit", false,
-		&Field{ID: 1, Name: "F1", T: &T{K: Struct, S: "LateInit0", Ptr: true}},
-		&Field{ID: 2, Name: "F2", T: &T{K: List, Elem: &T{K: Struct, S: "LateInit1"}}},
-		&Field{ID: 3, Name: "F3", T: &T{K: I64}})
 	// (what shows after such a failure is what the enclosing registration leaves behind: holders in three forms)
 	mk("HoldPanicInitB", false,
 		f(1, Default, I32),
@@ -579,12 +662,8 @@ func (g *gen) aliasAndFixed() []*StructDef {
 	mk("HoldPanicInitC", false,
 		&Field{ID: 1, Name: "F1", T: &T{K: Map, Key: &T{K: String}, Elem: &T{K: Struct, S: "Alias1", Ptr: true}}},
 		&Field{ID: 2, Name: "F2", T: &T{K: Map, Key: &T{K: I32}, Elem: &T{K: Struct, S: "PanicInit1"}}}).HoldsPanic = true
-	mk("HoldPanicInit", false,
-		&Field{ID: 1, Name: "F1", T: &T{K: Struct, S: "FixedN", Ptr: true}},
-		&Field{ID: 2, Name: "F2", T: &T{K: List, Elem: &T{K: Struct, S: "PanicInit2", Ptr: true}}},
-		&Field{ID: 3, Name: "F3", T: &T{K: I64}}).HoldsPanic = true
-	// nocopy views and the unknown-fields holder in the same definition (both refer to the message: one by design,
-	// the other must not), at the top level and nested
+	// the last variable-size field of a nested struct is a nocopy view, and strings follow that the enclosing
+	// container decodes itself (the next map key, the next list element)
 	{
 		nc := func(id uint16, req Req, k Kind) *Field {
 			x := f(id, req, k)
@@ -592,43 +671,14 @@ func (g *gen) aliasAndFixed() []*StructDef {
 			x.OptPtr = false
 			return x
 		}
-		mk("NcU", true, nc(1, Default, String), f(2, Default, I32), nc(3, Optional, Binary), f(4, Optional, I64), f(9, Default, String))
-		mk("HoldNcU", true,
-			&Field{ID: 1, Name: "F1", T: &T{K: Struct, S: "NcU", Ptr: true}},
-			&Field{ID: 2, Name: "F2", T: &T{K: List, Elem: &T{K: Struct, S: "NcU"}}, Req: Optional},
-			&Field{ID: 3, Name: "F3", T: &T{K: Map, Key: &T{K: String}, Elem: &T{K: Struct, S: "NcU", Ptr: true}}},
-			&Field{ID: 4, Name: "F4", T: &T{K: Struct, S: "NcU"}},
-			nc(5, Optional, String))
-	}
-	// a map type that occurs inside its own value type, by value and by pointer: the decode of an inner map runs
-	// while the outer one is between decoding an entry and storing it
-	for _, ptr := range []bool{false, true} {
-		n := "RecMapV"
-		if ptr {
-			n = "RecMapP"
-		}
-		mk(n, false, f(1, Default, String),
-			&Field{ID: 2, Name: "F2", T: &T{K: List, Elem: &T{K: I64}}},
-			&Field{ID: 3, Name: "F3", T: &T{K: Map, Key: &T{K: String}, Elem: &T{K: Struct, S: n, Ptr: ptr}}},
-			&Field{ID: 4, Name: "F4", T: &T{K: Map, Key: &T{K: I32}, Elem: &T{K: Struct, S: n, Ptr: ptr}}, Req: Optional})
-	}
-	// second, independent holders of the same inner definitions (which holder is used first must not matter)
-	for _, in := range []string{"FixedU", "FixedN", "EmptyU"} {
-		mk("Also"+in, false,
-			&Field{ID: 1, Name: "F1", T: &T{K: Struct, S: in}, Req: Required},
-			&Field{ID: 2, Name: "F2", T: &T{K: I32}},
-			&Field{ID: 3, Name: "F3", T: &T{K: Struct, S: in, Ptr: true}, Req: Optional})
-	}
-	for i, in := range []string{"FixedU", "FixedN", "FixedOneU", "Alias1", "Alias3", "EmptyN", "EmptyU"} {
-		mk(fmt.Sprintf("Hold%s", in), i%2 == 0,
-			&Field{ID: 1, Name: "F1", T: &T{K: Struct, S: in, Ptr: true}},
-			&Field{ID: 2, Name: "F2", T: &T{K: List, Elem: &T{K: Struct, S: in, Ptr: true}}},
-			&Field{ID: 3, Name: "F3", T: &T{K: List, Elem: &T{K: Struct, S: in}}, Req: Optional},
-			&Field{ID: 4, Name: "F4", T: &T{K: Map, Key: &T{K: I32}, Elem: &T{K: Struct, S: in, Ptr: true}}},
-			&Field{ID: 5, Name: "F5", T: &T{K: Map, Key: &T{K: String}, Elem: &T{K: Struct, S: in}}, Req: Optional},
-			&Field{ID: 6, Name: "F6", T: &T{K: Struct, S: in}},
-			&Field{ID: 7, Name: "F7", T: &T{K: Set, Elem: &T{K: Struct, S: in, Ptr: true}}, Req: Required},
-		)
+		mk("NcLast", false, f(1, Default, I64), f(2, Default, String), nc(3, Default, Binary))
+		mk("NcLastS", false, nc(1, Required, String), f(2, Default, I32))
+		mk("HoldNcLast", false,
+			&Field{ID: 1, Name: "F1", T: &T{K: Map, Key: &T{K: String}, Elem: &T{K: Struct, S: "NcLast", Ptr: true}}},
+			&Field{ID: 2, Name: "F2", T: &T{K: Map, Key: &T{K: String}, Elem: &T{K: Struct, S: "NcLastS"}}, Req: Optional},
+			&Field{ID: 3, Name: "F3", T: &T{K: Map, Key: &T{K: Struct, S: "NcLastS", Ptr: true}, Elem: &T{K: String}}, Req: Optional},
+			&Field{ID: 4, Name: "F4", T: &T{K: List, Elem: &T{K: Map, Key: &T{K: String}, Elem: &T{K: Struct, S: "NcLast"}}}, Req: Optional},
+			f(5, Default, String))
 	}
 	return out
 }
